@@ -413,6 +413,23 @@ fn corpus(rng: &mut Rng, cases: &mut Cases) {
     run_table(rng, cases, "corpus:fixed:finalpass-alias", &t, &fixed_realisation(vec![0, 1], 0), &[(vec![key(1), key(2), Sel::Agg('a', 3), Sel::Agg('s', 3), Sel::Agg('m', 3)], None)]);
     let t = table(vec![("id", ColType::Id, ints(&[0, 1, 2])), ("k0", ColType::Int("half"), ints(&[1 << 40, 0, 5])), ("k1", ColType::Int("half"), ints(&[1 << 41, 0, 5])), ("k2", ColType::Int("small"), ints(&[1, 0, 5]))]);
     run_table(rng, cases, "corpus:fixed:wide-pack", &t, &fixed_realisation(vec![0, 3], 0), &[(vec![key(1), key(2), key(3), Sel::Count1], None)]);
+    // fixed (3cc8efd, b5a9fe3, 5275058, 3044fa3, by C02; finding groupby-valrows-streamed): several grouping columns that go
+    // through value rows in ONE partition of at least batch_size rows (stages run chunk by chunk): integer keys came back NULL
+    // after the first chunk, every group once per chunk.  C02's witness (70 rows, keys near i64::MIN, batch_size 16) and the
+    // older kind (30 distinct strings in 40 rows = packed string column next to an integer key, batch_size 8).
+    let n = 70i64;
+    let t = table(vec![("id", ColType::Id, ints(&(0..n).collect::<Vec<i64>>())),
+        ("k0", ColType::Int("big"), opt_ints(&(0..n).map(|i| if i % 11 == 5 { None } else { Some(i64::MIN + 2582542491 + (i * 7919) % 61) }).collect::<Vec<_>>())),
+        ("k1", ColType::Int("const"), opt_ints(&(0..n).map(|i| if i % 9 == 4 { None } else { Some(1) }).collect::<Vec<_>>()))]);
+    let mut r = fixed_realisation(vec![0, n as usize], 0); r.batch_size = 16;
+    run_table(rng, cases, "corpus:fixed:valrows-streamed", &t, &r, &[(vec![key(2), key(1), Sel::Agg('M', 0)], None), (vec![key(1), key(2), Sel::Count1, Sel::Agg('s', 0)], None)]);
+    let n = 40i64;
+    let t = table(vec![("id", ColType::Id, ints(&(0..n).collect::<Vec<i64>>())),
+        ("k0", ColType::Str("distinct"), (0..n).map(|i| Cell::Str(format!("s{:02}", (i * 7) % 30))).collect()),
+        ("k1", ColType::Int("small"), ints(&(0..n).map(|i| i % 3).collect::<Vec<i64>>())),
+        ("v0", ColType::Int("small"), ints(&(0..n).map(|i| i - 20).collect::<Vec<i64>>()))]);
+    let mut r = fixed_realisation(vec![0, n as usize], 0); r.batch_size = 8;
+    run_table(rng, cases, "corpus:fixed:valrows-streamed", &t, &r, &[(vec![key(1), key(2), Sel::Count1, Sel::Agg('s', 3)], None), (vec![key(2), key(1), Sel::Agg('m', 3)], None)]);
 }
 
 /// thorough: every split of a 5-row table into 1..3 flushed partitions, for a fixed set of queries
